@@ -68,6 +68,28 @@ func c13CheckLongString(c c13LongLen) engine.Result {
 		for i := range x {
 			x[i] = 0
 		}
+		// strings that drive the register to ZERO in mid-string: U || CRC(U) (the only way to get there), followed by
+		// zero bytes, a non-zero byte and a tail - what a "nothing to do for zero bytes" shortcut gets wrong
+		if c.Len <= 1110 {
+			u := x[:c.Len%64]
+			for i := range u {
+				u[i] = byte(0x11 + i*5)
+			}
+			mid := append(append([]byte{}, u...), gots.ComputeCRC(u)...)
+			for i := range u {
+				u[i] = 0
+			}
+			for zeros := 0; zeros <= 3; zeros++ {
+				for _, b := range []byte{0x01, 0x80, 0xFF} {
+					for tail := 0; tail <= 2; tail++ {
+						y := append(append([]byte{}, mid...), make([]byte, zeros)...)
+						y = append(y, b)
+						y = append(y, []byte{0x00, 0x5A}[:tail]...)
+						c13One(&res, y, scratch)
+					}
+				}
+			}
+		}
 		for _, pos := range []int{0, c.Len - 1, c.Len / 2, c.Len / 3, 4095 % c.Len, 4096 % c.Len} {
 			x[pos] ^= 0x10
 			c13One(&res, x, scratch)
@@ -519,7 +541,7 @@ func init() {
 			},
 			&engine.Enum[c13LongLen]{
 				Name: "long-strings",
-				Rule: "lengths 1101..1110, every 2^k-4 .. 2^k+4 for k = 11..17 (around 2048, 4096, ..., 131072 bytes), 4089..4100, 5000, 12289, 65531..65540, 100000, 1000003 (thorough: every length 1101..9000): zero string, all-ones, a counting pattern and single-bit strings at six positions, value and residue against the bitwise reference (an implementation that works in blocks or through a table of any size crosses its boundaries)",
+				Rule: "lengths 1101..1110, every 2^k-4 .. 2^k+4 for k = 11..17 (around 2048, 4096, ..., 131072 bytes), 4089..4100, 5000, 12289, 65531..65540, 100000, 1000003 (thorough: every length 1101..9000): zero string, all-ones, a counting pattern and single-bit strings at six positions, and (lengths up to 1110) strings U || CRC(U) || 0..3 zero bytes || non-zero byte || tail that pass through the all-zero register in mid-string; value and residue against the bitwise reference (an implementation that works in blocks or through a table of any size crosses its boundaries)",
 				Gen: func(r *engine.Run, emit func(c13LongLen)) {
 					seen := map[int]bool{}
 					add := func(n int) {
